@@ -174,19 +174,6 @@ theorem C15_accept_perm (ext : Ext) {c1 c2 : Config} (h : PermTwin c1 c2) :
         subst hx; simp [ETree.leaves]
       · exact hfield _ hx
 
-/-- In allow-all mode the stored tree is the empty tree. -/
-theorem accepted_tree_star (ext : Ext) (cfg : Config) (icfg : ICfg) (acc : newInternalConfig ext cfg = .ok icfg)
-    (hs : cfg.origins.contains Validate.star = true) : icfg.tree = Node.empty := by
-  obtain ⟨_, rfl⟩ := (accepted_iff ext cfg icfg).mp acc
-  have hne : cfg.origins.isEmpty = false := by
-    cases h : cfg.origins with
-    | nil => rw [h] at hs; cases hs
-    | cons _ _ => rfl
-  simp only [Validate.build, Validate.originsResult, Validate.origins, hne, Bool.false_eq_true, if_false]
-  obtain ⟨_, ha⟩ := origins_fold_parsed ext cfg.credentialed (Validate.pnaAny cfg) cfg.tolInsecure cfg.tolPSL cfg.origins {}
-  rw [ha, hs]
-  rfl
-
 /-- **C15 (twins answer identically).** Two accepted configurations whose lists mean the same
 sets (`Twin`: any order, any multiplicity, any letter case of header names, any spelling of a
 normalisable method, with or without entries that validation drops) produce handlers that are the
